@@ -14,7 +14,7 @@ import (
 )
 
 func init() {
-	register("C05", checkC05, "The end-to-end statement (every multiset of fields, every device memory image) is NOT decided: it needs execution. Decided necessary conditions: R5.1 for each of the 13 register field types the number of registers Field.registerSize reserves (evaluated symbolically per type constant, ceil(Length/2) for strings) equals the number of registers the accessor chosen by Field.ExtractFrom for that type reads (from its result type / length parameter). R5.2 argument roles: each ExtractFrom case passes the field's own Address and exactly the attribute each accessor parameter stands for (bit, high-byte flag, byte order, length); extractRegisterFields hands the request's StartAddress to AsRegisters, the responses' AsRegisters hand (payload, start) to NewRegisters, extractCoilFields hands (request start, field address) to IsCoilSet in this order. R5.3 in split the request descriptor's StartAddress / UnitID are the same batch values that were given to the packet constructor, Fields is the batch's field list and ServerAddress its address. R5.4 both extraction loops visit every field once: per iteration either return (strict mode, nil slice, wrapped error) or append exactly one FieldValue whose Field is the loop element and whose Value/Error are the pair just obtained; the lenient path returns the partial-error sentinel iff an error was seen. R5.5 the slot merge keeps the widest size (the store back into the slot table carries the updated size). R5.2 also requires that a value spanning several registers is decoded by an accessor that takes the field's byte order. R5.6 extraction is effect-free (C13 analysis from the extraction roots). R5.7 every read-request constructor split calls accepts every quantity 1..limit (its error returns are unreachable in that range). R5.8 every batch, also the follow-up ones after a split, carries its group's address and unit id. R5.8 also covers the grouping key's injectivity. R5.9 Field.Validate accepts every well-formed field (defined type, bit <= 15, string length >= 1, address + register count <= 65536): no other error return is reachable. R5.10 the builder methods that accept definitions from the caller (Add, AddAll) write to no field of a Field value. R5.11 = C04 R4.1/R4.4/R4.W: the window NewRegisters builds has no wrap-around and in-window accesses succeed. R5.12 building requests is read-only on the builder: no write to memory derived from the builder's field list, no store through the *Builder receiver, no package-level state on the path of any method returning []BuilderRequest (derived-pointer analysis). R5.4 also: Field, Value and Error are each assigned on every iteration before the record is appended. R5.12 clause 3: no function on the build path stores to a field of a Field value. R5.13 = C04 R4.3 (every typed accessor decodes with the order argument, or the default iff the argument is 0, for word order and byte order alike). R5.14 = C04 R4.8 (no float-width detour between the decode and the reported value). R5.15 = C06 R6.9 (the slots are sorted by a comparator that is the ascending address order for all values, and the sorted slice is the one the batching loop walks; sort.Sort/sort.Slice or slices.SortFunc).")
+	register("C05", checkC05, "The end-to-end statement (every multiset of fields, every device memory image) is NOT decided: it needs execution. Decided necessary conditions: R5.1 for each of the 13 register field types the number of registers Field.registerSize reserves (evaluated symbolically per type constant, ceil(Length/2) for strings) equals the number of registers the accessor chosen by Field.ExtractFrom for that type reads (from its result type / length parameter). R5.2 argument roles: each ExtractFrom case passes the field's own Address and exactly the attribute each accessor parameter stands for (bit, high-byte flag, byte order, length); extractRegisterFields hands the request's StartAddress to AsRegisters, the responses' AsRegisters hand (payload, start) to NewRegisters, extractCoilFields hands (request start, field address) to IsCoilSet in this order. R5.3 in split the request descriptor's StartAddress / UnitID are the same batch values that were given to the packet constructor, Fields is the batch's field list and ServerAddress its address. R5.4 both extraction loops visit every field once: per iteration either return (strict mode, nil slice, wrapped error) or append exactly one FieldValue whose Field is the loop element and whose Value/Error are the pair just obtained; the lenient path returns the partial-error sentinel iff an error was seen. R5.5 the slot merge keeps the widest size (the store back into the slot table carries the updated size). R5.2 also requires that a value spanning several registers is decoded by an accessor that takes the field's byte order. R5.6 extraction is effect-free (C13 analysis from the extraction roots). R5.7 every read-request constructor split calls accepts every quantity 1..limit (its error returns are unreachable in that range). R5.8 every batch, also the follow-up ones after a split, carries its group's address and unit id. R5.8 also covers the grouping key's injectivity. R5.9 Field.Validate accepts every well-formed field (defined type, bit <= 15, string length >= 1, address + register count <= 65536): no other error return is reachable. R5.10 the builder methods that accept definitions from the caller (Add, AddAll) write to no field of a Field value. R5.11 = C04 R4.1/R4.4/R4.W: the window NewRegisters builds has no wrap-around and in-window accesses succeed. R5.12 building requests is read-only on the builder: no write to memory derived from the builder's field list, no store through the *Builder receiver, no package-level state on the path of any method returning []BuilderRequest (derived-pointer analysis). R5.4 also: Field, Value and Error are each assigned on every iteration before the record is appended. R5.12 clause 3: no function on the build path stores to a field of a Field value. R5.13 = C04 R4.3 (every typed accessor decodes with the order argument, or the default iff the argument is 0, for word order and byte order alike). R5.16 every return of a builder method that accepts definitions is dominated by the append of those definitions to the builder's field list (a duplicate filter reports a field zero times). R5.14 = C04 R4.8 (no float-width detour between the decode and the reported value). R5.15 = C06 R6.9 (the slots are sorted by a comparator that is the ascending address order for all values, and the sorted slice is the one the batching loop walks; sort.Sort/sort.Slice or slices.SortFunc).")
 	register("C06", checkC06, "Optimality/tightness of the greedy batching for all field lists is NOT decided (algorithmic). Decided: R6.1 every request descriptor appended in split is dominated by a packet.New*Request* call on the batch's own unit id / start / quantity and by the error test, so quantity limits follow from the validating constructors (C01 R1.2). R6.2 the grouping key is an injective function of (server address, unit id, kind): a constant format with a separator between verbs whose trailing operands are integers/bools, or a comparable struct key; both batch-initialisation sites take address and unit id from the group and the start address from the current slot. R6.3 the kind filter skips a field exactly when its kind differs from the requested kind (truth table over the 4 valuations through the CFG), the requested kind is 'coils' exactly for the FC1/FC2 targets, each target constant calls the constructor of its function code and framing, and the address limit is the coil limit exactly for coil groups, with both limit constants equal to the specification's 2000/125. R6.W no narrow-typed arithmetic in batchToRequests / AddField can wrap (slot end and span are computed without 16-bit wrap-around), and the conversion of the span to the 16-bit quantity is proven exact. R6.4 = R5.7 (a batch filled to the limit can be constructed). R6.5 the encoders of the request types split constructs write unit id, start and quantity as the specification lays them out (C01 R1.1 for those eight types). R6.6 = C05 R5.1: the slot size the batcher reserves equals the registers the field's type occupies. R6.8 = R5.12 (building is read-only on the builder; a memoised result would have to be stored in it). R6.9 the comparator handed to sort in batchToRequests is the ascending numeric order of an unsigned slot field the batching loop reads, for all values (abstract interpretation of Less with rule W; ties free). R6.9 also: the slice handed to sort is the slice the batching loop walks; a three-way comparator given to slices.SortFunc must be negative exactly when the field is smaller (cmp.Compare on the field is accepted by contract). R6.8 includes the stale-element-pointer clause of R5.12.")
 }
 
@@ -84,6 +84,8 @@ func checkC05(c *Ctx, r *Report) {
 	r.floor("R5.9", 1)
 	c05Definitions(c, r)
 	r.floor("R5.10", 2)
+	c05Kept(c, r)
+	r.floor("R5.16", 2)
 	// R5.11: the window the typed accessors work on is the one the response covers: NewRegisters
 	// computes its bounds without wrap-around and every access stays inside (C04 R4.1/R4.4/R4.W)
 	{
